@@ -43,7 +43,20 @@ BASE_SEED = [0]          # the seed of the run: the inputs every worker process 
 NUMBA_THREADS = [1, 2, 4, 16]
 
 
+SPAWN_SECONDS = {}
+
+
 def _spawn(what, seed, tier, env_extra):
+    import time
+    t0 = time.time()
+    try:
+        return _spawn1(what, seed, tier, env_extra)
+    finally:
+        SPAWN_SECONDS[what + ''.join(f' {k}={v}' for k, v in sorted(env_extra.items()) if k.startswith('NUMBA'))] = \
+            round(time.time() - t0, 1)
+
+
+def _spawn1(what, seed, tier, env_extra):
     env = dict(os.environ)
     env.update(env_extra)
     env['PYTHONPATH'] = C.REPO + os.pathsep + env.get('PYTHONPATH', '')
@@ -295,7 +308,7 @@ def check_sched(rep, results):
                           f"{hb['box']}: the answer depends on what ran before in the process "
                           f"({', '.join(hb['histories_that_differ_from_first'])} differ from the first evaluation: "
                           f"{hb['first']} vs {hb['other']})",
-                          {'numba_threads': nt, 'kind': 'sched', **hb})
+                          {'numba_threads': nt, 'kind': 'sched', 'history_share': res.get('history_share'), **hb})
         for nm in res.get('large_scalar_bad', []):
             rep.violation('array-vs-scalar:' + nm.split('[')[0], f'{nm}: the array kernel disagrees with the scalar '
                           f'form / the case is degenerate', {'numba_threads': nt, 'op': nm, 'kind': 'sched'})
@@ -400,20 +413,24 @@ def run(rep):
                 'delays in a wrapping filesystem x switch interval 1e-5; (3) 8 client threads x 5 rounds on 13 '
                 'kinds of shared object; non-trivial = threaded run with > 1 worker, kernel record with >= 2 '
                 'storing iterations, cache race with >= 2 builders, recorded threaded filesystem trace; '
-                '(4) round 4, in every NUMBA_NUM_THREADS process: (a) single elements that are large - lines / rings of 5, '
-                '4097, 8190 .. 8193, 20 011, 70 001 vertices, multi-geometries of 9 000 parts, a polygon with 4 200 holes '
-                '- at non-dyadic coordinates (full mantissas, offsets 1e3 / 1e6): length / area / bounds / total_bounds / '
-                'intersects_bounds through the array, the scalar element, GeoSeries and Dask (synchronous, threads) bit for '
-                'bit equal under numba.set_num_threads(k), k in {1,2,3,4,7,16} available, and across the processes; the '
-                '60 000-element arrays also carry non-dyadic coordinates; (b) the same (array, operation, box) - 7 kinds, '
-                '1 / 3 / 48 / 200 / 777 elements with missing and empty ones, 11 boxes (ordinary, zero width, zero height, '
+                '(4) round 4: (a) in every NUMBA_NUM_THREADS process, single elements that are large - lines / rings of 5, '
+                '4097, 8190 .. 8193, 20 011 vertices, a 16 385-vertex line and a 16 400-vertex ring inside multi-geometries, '
+                'multi-geometries of 2 500 parts, a polygon with 600 holes (thorough tier: also 70 001 vertices, 9 000 parts, '
+                '4 200 holes) - at non-dyadic coordinates (full mantissas, offsets 1e3 / 1e6): length / area / bounds / '
+                'total_bounds / intersects_bounds through the array, the scalar element, GeoSeries and Dask (synchronous, '
+                'threads) bit for bit equal under numba.set_num_threads(k), k in {1,2,4,16} available (thorough: '
+                '{1,2,3,4,7,16}, twice), and across the processes; the 60 000-element arrays also carry non-dyadic '
+                'coordinates; (b) the same (array, operation, box) - 7 kinds x 1 / 3 / 48 / 200 / 777 elements with missing '
+                'and empty ones (the 35 arrays are dealt out to the four processes, rotating with the seed, about 7 500 '
+                'evaluations each), 11 boxes (ordinary, zero width, zero height, '
                 'point, vertex-aligned zero width / height, reversed, NaN, infinite, everything, nothing), intersects_bounds '
                 'with / without / with empty inds, scalar elements, GeoSeries, cx in slice and scalar form with and without '
                 'a built index, sindex, bounds, total_bounds, isna, length, area, PointArray.intersects against 9 ordinary '
                 'and degenerate shapes, Dask intersects_bounds + cx on both schedulers - evaluated first, right after a '
                 'query that matched everything / nothing, and after blocks of every size a result can have were filled '
-                'with 0x01 / 0xff / 1.2345 / 0x00 and freed: all evaluations equal, first evaluations equal across the '
-                'processes; degenerate boxes also through the Dask suite of (2) (with a multiline column) and from 8 '
+                'with 0x01 / 0xff / 1.2345 / 0x00 and freed: all evaluations equal; zero-width / zero-height boxes on 6 '
+                'columns (with a multiline column) in one graph with an all / none box and the scalar cx forms on the line '
+                'columns through the Dask suite of (2); 8 '
                 'client threads putting the queries to one shared array each in its own order')
     seed = rep.seed
     BASE_SEED[0] = seed
@@ -421,12 +438,21 @@ def run(rep):
     with cf.ThreadPoolExecutor(max_workers=8) as ex:
         jobs['footprint'] = ex.submit(_spawn, 'footprint', seed, tier, {'NUMBA_DISABLE_JIT': '1'})
         jobs['clients'] = ex.submit(_spawn, 'clients', seed, tier, {})
-        for nt in NUMBA_THREADS:
-            jobs[('sched', nt)] = ex.submit(_spawn, 'sched', seed + nt, tier, {'NUMBA_NUM_THREADS': str(nt)})
+        for k, nt in enumerate(NUMBA_THREADS):
+            # the arrays of the history suite are dealt out to the four processes, rotating with the seed
+            jobs[('sched', nt)] = ex.submit(_spawn, 'sched', seed + nt, tier,
+                                            {'NUMBA_NUM_THREADS': str(nt), 'C18_HISTORY_SHARE': str((k + seed) % 4)})
         done = {k: f.result() for k, f in jobs.items()}
+    import time
+    t_check = time.time()
+    # [wall seconds, CPU seconds] per phase and worker process (the workers run side by side)
+    rep.extra['seconds'] = {
+        'worker wall (spawn to result)': dict(SPAWN_SECONDS),
+        'phases [wall, cpu]': {str(k): v.get('phase_seconds') for k, v in done.items() if isinstance(v, dict)}}
     check_footprints(rep, done['footprint'])
     check_sched(rep, [(nt, done[('sched', nt)]) for nt in NUMBA_THREADS])
     check_clients(rep, done['clients'])
+    rep.extra['seconds']['model evaluation in Coq + comparisons'] = round(time.time() - t_check, 1)
 
 
 def replay(rep, rp):
@@ -435,9 +461,10 @@ def replay(rep, rp):
     kind = rp.get('kind')
     BASE_SEED[0] = rep.seed
     if kind == 'sched':
-        res = _spawn('sched', rep.seed, rep.tier, {'NUMBA_NUM_THREADS': str(rp['numba_threads'])})
+        res = _spawn('sched', rep.seed, rep.tier, {'NUMBA_NUM_THREADS': str(rp['numba_threads']),
+                                                   'C18_HISTORY_SHARE': str(rp.get('history_share', -1))})
         r2 = C.Report(rep.pid, rep.tier, rep.seed)
-        base = _spawn('sched', rep.seed, rep.tier, {'NUMBA_NUM_THREADS': '1'})
+        base = _spawn('sched', rep.seed, rep.tier, {'NUMBA_NUM_THREADS': '1', 'C18_HISTORY_SHARE': '-2'})
         check_sched(r2, [(1, base), (rp['numba_threads'], res)])
         for v in r2.violations:
             print('still:', v['signature'], v['what'])
